@@ -130,6 +130,13 @@ theorem resolve_agree {c : Cat} {ss : Session} (hc : ss.coherent c = true) (r : 
       exact hf
     · simp
 
+theorem rawFails_region {c : Cat} {ss : Session} {st : Stmt} (h : localRegion c ss st = none) : st.rawFails = false := by
+  cases hr : st.rawFails
+  · rfl
+  · cases st with
+    | two op a b => simp only [localRegion, hr, if_true] at h; cases h
+    | _ => simp [Stmt.rawFails] at hr
+
 /-- a statement stopped by the guards is answered by the specification with the same error, nothing changed -/
 theorem guard_refines {c : Cat} {ss : Session} (hc : ss.coherent c = true) (st : Stmt) (e : Err)
     (hreg : localRegion c ss st = none) (hg : ss.guard st.needs = some e) :
@@ -146,6 +153,18 @@ theorem guard_refines {c : Cat} {ss : Session} (hc : ss.coherent c = true) (st :
   | join r1 r2 =>
     simp only [Stmt.needs] at hg
     simp [sexec, resolve_guard hc r1 e hg]
+  | two op a b =>
+    have hraw : (Stmt.two op a b).rawFails = false := rawFails_region hreg
+    cases op
+    case merge =>
+      -- MERGE needs database and schema; its source is unqualified (anything else is in the region)
+      cases b with
+      | q1 n =>
+        rcases coherent_cases hc with rfl | ⟨d, rfl, _⟩ | ⟨d, sc, rfl, _⟩ <;> cases a <;>
+          simp [Stmt.needs, Session.guard, Session.abs, sexec, Ctx.resolveT] at * <;> exact hg.symm ▸ rfl
+      | q2 _ _ => simp [Stmt.rawFails] at hraw
+      | q3 _ _ _ => simp [Stmt.rawFails] at hraw
+    all_goals (simp only [Stmt.needs] at hg; simp [sexec, resolve_guard hc a e hg])
   | sch op r =>
     cases op <;> cases r <;> simp [Stmt.needs, Session.guard, SRef.needDb] at hg <;>
       rcases coherent_cases hc with rfl | ⟨d, rfl, _⟩ | ⟨d, sc, rfl, _⟩ <;>
@@ -191,6 +210,44 @@ theorem refines_join {c : Cat} {ss : Session} (hc : ss.coherent c = true) (r1 r2
   have h2 := resolve_agree hc r2 false hg2 (Or.inr hfb.2)
   simp only [LocalRefines, exec, sexec, h1, h2, clear_none]
   exact ⟨trivial, trivial, trivial, hc, Cat.Keeps.refl _ _⟩
+
+theorem applyTwo_keeps (c : Cat) (op : COp) (a b : Name × Name × Name) (g) : Cat.Keeps c (c.applyTwo op a b).2 g := by
+  unfold Cat.applyTwo
+  repeat' split
+  all_goals first | exact Cat.Keeps.refl _ _ | exact keeps_objs _ _ _
+
+theorem guard_all_of_full {ss : Session} (h : ss.guard (true, true) = none) (n : Bool × Bool) : ss.guard n = none := by
+  obtain ⟨a, b⟩ := n
+  simp only [Session.guard] at h ⊢
+  cases hd : ss.databaseSet <;> cases hs : ss.schemaSet <;> simp_all
+
+theorem refines_two {c : Cat} {ss : Session} (hc : ss.coherent c = true) (op : COp) (a b : TRef)
+    (hreg : localRegion c ss (.two op a b) = none) (hg : ss.guard (Stmt.two op a b).needs = none) :
+    LocalRefines c ss (.two op a b) := by
+  have hraw : (Stmt.two op a b).rawFails = false := rawFails_region hreg
+  simp only [localRegion, hraw, Bool.false_eq_true, if_false, hg, Option.isNone_none, Bool.true_and] at hreg
+  have hgb : ss.guard (b.needDb, b.needSchema) = none := by
+    cases h : ss.guard (b.needDb, b.needSchema) with
+    | none => rfl
+    | some e => simp [h] at hreg
+  simp only [hgb, Option.isSome_none, Bool.false_eq_true, if_false] at hreg
+  have hga : ss.guard (a.needDb, a.needSchema) = none := by
+    cases op <;> first | exact hg | exact guard_all_of_full hg _
+  have hfa : op.creates = true ∨ fallsBack c ss.path a = false := by
+    cases hcr : op.creates
+    · right
+      cases h : fallsBack c ss.path a
+      · rfl
+      · simp [hcr, h] at hreg
+    · left; rfl
+  have hfb : fallsBack c ss.path b = false := by
+    cases h : fallsBack c ss.path b
+    · rfl
+    · simp [h] at hreg
+  have h1 := resolve_agree hc a op.creates hga hfa
+  have h2 := resolve_agree hc b false hgb (Or.inr hfb)
+  simp only [LocalRefines, exec, sexec, h1, h2, clear_none]
+  exact ⟨trivial, trivial, trivial, coherent_keeps (applyTwo_keeps c op _ _ none) hc (by simp), applyTwo_keeps _ _ _ _ _⟩
 
 theorem refines_simple {c : Cat} {ss : Session} (hc : ss.coherent c = true) (st : Stmt)
     (hst : (∃ d i, st = .createDb d i) ∨ (∃ d, st = .useDb d) ∨ st = .selectCtx)
@@ -295,6 +352,7 @@ theorem exec_refines {c : Cat} {ss : Session} (hc : ss.coherent c = true) (st : 
   | selectCtx => exact refines_simple hc _ (Or.inr (Or.inr rfl)) hreg
   | tab op r => exact refines_tab hc op r hreg hg
   | join r1 r2 => exact refines_join hc r1 r2 hreg hg
+  | two op a b => exact refines_two hc op a b hreg hg
   | sch op r =>
     cases op
     · exact refines_sch_create hc _ r hg
@@ -318,6 +376,8 @@ theorem sexec_dropped {c : Cat} {x : Ctx} {st : Stmt} {d s : Name} (h : (sexec c
   | tab op r => simp only [sexec] at h; split at h <;> simp at h
   | join r1 r2 => simp only [sexec] at h; repeat' split at h
                   all_goals simp at h
+  | two op r1 r2 => simp only [sexec] at h; repeat' split at h
+                    all_goals simp at h
   | createDb d i => simp [sexec] at h
   | dropDb d => simp only [sexec] at h; split at h <;> simp at h
   | useDb d => simp only [sexec] at h; split at h <;> simp at h
@@ -375,7 +435,8 @@ theorem step_refines (w : World) (i : Nat) (st : Stmt) (ss : Session) (hi : w.se
     (Impl.step w i st).1 = (Spec.step w.abs i st).1 ∧ (Impl.step w i st).2.abs = (Spec.step w.abs i st).2 := by
   obtain ⟨hl, hoth⟩ := region_none hi hreg
   have hai : w.abs.ctxs[i]? = some ss.abs := by rw [abs_get, hi]; rfl
-  simp only [Impl.step, Spec.step, hi, hai]
+  have hraw := rawFails_region hl
+  simp only [Impl.step, Spec.step, hi, hai, hraw, Bool.false_eq_true, if_false]
   cases hg : ss.guard st.needs with
   | some e =>
     have := guard_refines hc st e hl hg
@@ -431,7 +492,8 @@ theorem step_coherent (w : World) (i : Nat) (st : Stmt) (hw : w.coherent = true)
   | some ss =>
     have hc := hw ss (List.mem_iff_getElem?.mpr ⟨i, hi⟩)
     obtain ⟨hl, hoth⟩ := region_none hi hreg
-    simp only
+    have hraw := rawFails_region hl
+    simp only [hraw, Bool.false_eq_true, if_false]
     cases hg : ss.guard st.needs with
     | some e => simpa [World.coherent, List.all_eq_true] using hw
     | none =>
